@@ -28,7 +28,9 @@ class C11(Prop):
 
     def _case(self, rng, typ):
         g = G.rgeom(rng, typ)
-        bt = lambda: rng.choice([Fraction(0), Fraction(1, 64), Fraction(1, 4), Fraction(1), Fraction(3), Fraction(40)])
+        # time has no upper limit: buffers beyond MAX_FREQUENCY (a number of the frequency axis) must still be honoured
+        bt = lambda: rng.choice([Fraction(0), Fraction(1, 64), Fraction(1, 4), Fraction(1), Fraction(3), Fraction(40), Fraction(40),
+                                 Fraction(10000), MAXF + 1000000, MAXF * 4])
         bf = lambda: rng.choice([Fraction(0), Fraction(1, 4), Fraction(2), Fraction(16), Fraction(100), MAXF * 2])
         tb, fb = bt(), bf()
         if rng.random() < 0.06:
@@ -36,7 +38,7 @@ class C11(Prop):
                 tb = Fraction(-1, 4)
             else:
                 fb = Fraction(-1)
-        tb2 = tb + rng.choice([Fraction(0), Fraction(1, 4), Fraction(2)])
+        tb2 = tb + rng.choice([Fraction(0), Fraction(1, 4), Fraction(2)]) if tb < 1000 else tb * rng.choice([1, 2, 8])
         fb2 = fb + rng.choice([Fraction(0), Fraction(1), Fraction(50)])
         return {"kind": typ, "g": g, "tb": tb, "fb": fb, "tb2": tb2, "fb2": fb2}
 
